@@ -629,14 +629,17 @@ func c11Busy(known map[string]bool) (ids []string, sample string) {
 
 // c11Settle waits until everything the last message set off has ended, so that a panic in a goroutine
 // the station started is charged to the message that started it. 2 s is slow, 15 s is a hang.
-func c11Settle(base int, known map[string]bool, progress *os.File, i int) {
+func c11Settle(base *int, known map[string]bool, progress *os.File, i int) {
 	start, slow := time.Now(), false
-	for runtime.NumGoroutine() > base {
+	for runtime.NumGoroutine() > *base {
 		d := time.Since(start)
 		if d > 50*time.Millisecond {
 			ids, sample := c11Busy(known)
 			if len(ids) == 0 {
-				return // what is left does not belong to the code under test (idle connections, timers)
+				// what is left does not belong to the code under test (idle connections, timers): it is
+				// part of the process from now on, and the next message is not made to wait for it
+				*base = runtime.NumGoroutine()
+				return
 			} else if d > 15*time.Second {
 				fmt.Fprintf(progress, "HANG %d %s\n", i, strings.ReplaceAll(sample, "\n", " ⏎ "))
 				for _, id := range ids { // reported once
@@ -766,7 +769,7 @@ func TestVerifC11StationChild(t *testing.T) {
 			if atomic.SwapInt64(&noSource, 0) != 0 {
 				fmt.Fprintf(progress, "BAD %d\t%s\t%s\n", i, "C11:zmq-ingest:registration-without-source", "parseRegMessage returned a registration whose RegistrationSource pointer is nil; ingestRegistration and AddRegStats dereference it unchecked")
 			}
-			c11Settle(base, known, progress, i)
+			c11Settle(&base, known, progress, i)
 			if d := atomic.LoadInt64(&dials); d > 0 {
 				fmt.Fprintf(progress, "RESOLVE %d %d %d\n", i, d, atomic.LoadInt64(&worst))
 			}
